@@ -256,3 +256,17 @@ LEVEL_TEXT.update({
     'C02': 'Decidable conformance of the 73 layouts, type numbers and enum / flag tables regenerated from the source against an independent Coq transcription of the specification (vm_compute over finite data), lifted by generic theorems to every value: exact byte offsets, widths, little-endian order, zero spare bytes, enumerant values, bit positions, bytes 0-2. Tied to the real Codec by reference frames built from the dumped transcription (every enumerant, single flag bit, boundary integer, text, array size, both modes): decoded, observed through the public fields, re-encoded byte for byte; the same frames go through the wire model.',
 })
 NOT_APPLICABLE.pop('C02', None)
+
+# ---- model-side diagnosis evaluated when a proof obligation breaks (names the offending kinds / fields) ----
+_WIRE_DIAG = '''Require Import Coq.Strings.String.
+Require Import Base.Bytes Wire.Layout Wire.Customs Wire.LayoutProofs Wire.Packet Wire.PacketChecks Gen.Packets.
+Local Open Scope string_scope.
+Eval vm_compute in ("kinds whose layout can panic on decode", offenders kind_panic_free).
+Eval vm_compute in ("kinds whose encoded length is not always a multiple of 4", offenders kind_size4).
+'''
+for _p in ('C01', 'C03', 'C04', 'C11'): PROPS[_p]['diag'] = _WIRE_DIAG
+PROPS['C02']['diag'] = '''Require Import Coq.Strings.String.
+Require Import Spec.Conform.
+Local Open Scope string_scope.
+Eval vm_compute in ("deviations from the transcribed specification", all_problems).
+'''
